@@ -23,3 +23,106 @@ package requestreply
 //@   ensures result1 == nil && msg.Metadata[HasErrorMetadataKey] == "1" ==> result0.Error != nil && errtext(result0.Error) == msg.Metadata[ErrorMetadataKey] [error-text-restored]
 //@   ensures result1 == nil && msg.Metadata[HasErrorMetadataKey] != "1" ==> result0.Error == nil [no-error-restored]
 //@   ensures result1 != nil ==> result0.Error == nil && result0.NotificationMessage == nil [failure-yields-the-zero-reply]
+
+// ---- Pub/Sub backend (C18) ----
+
+//@ func operationIDFromMetadata
+//@   requires msg != nil
+//@   nopanic
+//@   pure
+//@   ensures result1 == nil ==> result0 != "" && result0 == (has(msg.Metadata, OperationIDMetadataKey) ? msg.Metadata[OperationIDMetadataKey] : "") [the-operation-id-of-the-command]
+//@   ensures result1 != nil ==> (!has(msg.Metadata, OperationIDMetadataKey) || msg.Metadata[OperationIDMetadataKey] == "") [error-exactly-when-the-command-carries-none]
+
+//@ func (PubSubBackend[Result]).handleNotifyMsg
+//@   ghost label HN
+//@   requires msg != nil && marshaler != nil
+//@   callee UN = marshaler.UnmarshalReply
+//@   ensures ncalls("(*Message).Ack") == old(ncalls("(*Message).Ack")) + 1 [every-notification-is-acked]
+//@   ensures msg.ackSentType != 0 [the-notification-is-settled-afterwards]
+//@   ensures result1 ==> (has(msg.Metadata, OperationIDMetadataKey) ? msg.Metadata[OperationIDMetadataKey] == expectedCommandUuid : expectedCommandUuid == "") [only-notifications-of-this-operation-are-accepted]
+//@   ensures !result1 ==> result2 == nil && calls(UN) == old(calls(UN)) [a-foreign-notification-is-not-even-decoded]
+//@   ensures result1 ==> calls(UN) == old(calls(UN)) + 1 && arg(UN, 0, old(calls(UN))) == msg && result2 == ret(UN, 1, old(calls(UN))) [an-own-notification-is-decoded-once-by-the-marshaler]
+//@   panics-ensures ncalls("(*Message).Ack") == old(ncalls("(*Message).Ack")) + 1 [acked-even-when-the-marshaler-panics]
+
+//@ func (PubSubBackend[Result]).OnCommandProcessed
+//@   maypanic
+//@   modifies anymap(message.Metadata), field(message.Message.ctx)
+//@   requires p.marshaler != nil && p.config.Publisher != nil && p.config.GeneratePublishTopic != nil && params.CommandMessage != nil && ctx != nil
+//@   callee MAR = p.marshaler.MarshalReply
+//@   callee MOD = p.config.ModifyNotificationMessage
+//@   callee TOP = p.config.GeneratePublishTopic
+//@   callee PUB = p.config.Publisher.Publish
+//@   callee EH = p.config.ReplyPublishErrorHandler
+//@   ensures calls(PUB) <= old(calls(PUB)) + 1 [at-most-one-reply-per-processed-command]
+//@   ensures result == nil ==> calls(PUB) == old(calls(PUB)) + 1 && arg(PUB, 0, old(calls(PUB))) == ret(TOP, 0, calls(TOP) - 1) && len(arg(PUB, 1, old(calls(PUB)))) == 1 && arg(PUB, 1, old(calls(PUB)))[0] == ret(MAR, 0, old(calls(MAR))) [nil-only-after-the-marshalled-reply-was-published-to-the-generated-topic]
+//@   ensures result == nil && !p.config.AckCommandErrors ==> params.HandleErr == nil [a-handler-error-nacks-the-command-unless-configured-otherwise]
+//@   ensures calls(PUB) == old(calls(PUB)) + 1 && ret(PUB, 0, old(calls(PUB))) == nil && p.config.AckCommandErrors ==> result == nil [with-AckCommandErrors-a-published-reply-acks-the-command]
+//@   ensures calls(PUB) == old(calls(PUB)) + 1 && ret(PUB, 0, old(calls(PUB))) == nil && !p.config.AckCommandErrors ==> result == params.HandleErr [otherwise-the-handlers-error-decides]
+//@   assert @call:p.config.Publisher.Publish: notificationMsg != nil && has(notificationMsg.Metadata, OperationIDMetadataKey) && notificationMsg.Metadata[OperationIDMetadataKey] == params.CommandMessage.Metadata[OperationIDMetadataKey] && notificationMsg.Metadata[OperationIDMetadataKey] != "" [the-reply-carries-the-operation-id-of-its-command]
+
+//@ func (PubSubBackend[Result]).ListenForNotifications$1
+//@   ghost owns replyChan
+//@   ghost recv-nonnil notifyMsgs
+//@   requires ctx != nil && replyChan != nil && !closed(replyChan) && cancel != nil && p.marshaler != nil
+//@   callee HOOK = p.config.OnListenForReplyFinished
+//@   callee CANCEL = cancel
+//@   callee UN = marshaler.UnmarshalReply
+//@   ensures closed(replyChan) [the-reply-channel-is-closed-when-the-listener-ends]
+//@   ensures calls(CANCEL) == old(calls(CANCEL)) + 1 [the-subscription-context-is-cancelled-once]
+//@   ensures p.config.OnListenForReplyFinished != nil ==> calls(HOOK) == old(calls(HOOK)) + 1 [the-finished-hook-runs-exactly-once]
+//@   ensures p.config.OnListenForReplyFinished == nil ==> calls(HOOK) == old(calls(HOOK))
+//@   panics-ensures closed(replyChan) && calls(CANCEL) == old(calls(CANCEL)) + 1 && (p.config.OnListenForReplyFinished != nil ==> calls(HOOK) == old(calls(HOOK)) + 1) [also-when-the-marshaler-panics]
+//@   inv loop 1: !closed(replyChan) && calls(HOOK) == old(calls(HOOK)) && calls(CANCEL) == old(calls(CANCEL)) [still-listening]
+//@   assert @call:sendReply: unmarshalErr != nil || (ok && (has(notifyMsg.Metadata, OperationIDMetadataKey) ? notifyMsg.Metadata[OperationIDMetadataKey] == params.OperationID : params.OperationID == "")) [a-reply-is-handed-to-the-caller-only-if-it-carries-this-requests-operation-id]
+
+// ---- caller side (C18) ----
+
+//@ func SendWithReplies$2
+//@   requires m != nil && m.Metadata != nil
+//@   nopanic
+//@   ensures result == nil && has(m.Metadata, OperationIDMetadataKey) && m.Metadata[OperationIDMetadataKey] == operationID [stamps-the-command-with-this-requests-operation-id]
+//@   ensures forall k string :: k != OperationIDMetadataKey ==> has(m.Metadata, k) == old(has(m.Metadata, k)) && m.Metadata[k] == old(m.Metadata[k]) [nothing-else-touched]
+//@   modifies map(m.Metadata)
+
+//@ func SendWithReplies
+//@   requires ctx != nil && c != nil && backend != nil
+//@   callee LISTEN = backend.ListenForNotifications
+//@   callee SEND = c.SendWithModifiedMessage
+//@   ensures calls(LISTEN) == old(calls(LISTEN)) + 1 && arg(LISTEN, 1, old(calls(LISTEN))).Command == cmd && arg(LISTEN, 1, old(calls(LISTEN))).OperationID != "" [listens-first-for-a-fresh-operation-id]
+//@   ensures calls(SEND) <= old(calls(SEND)) + 1 [the-command-is-sent-at-most-once]
+//@   ensures calls(SEND) == old(calls(SEND)) + 1 ==> ret(LISTEN, 1, old(calls(LISTEN))) == nil && arg(SEND, 1, old(calls(SEND))) == cmd && isclosure(arg(SEND, 2, old(calls(SEND))), "requestreply.SendWithReplies$2") && closurevar(arg(SEND, 2, old(calls(SEND))), "requestreply.SendWithReplies$2", "operationID") == arg(LISTEN, 1, old(calls(LISTEN))).OperationID [the-command-is-sent-only-after-listening-started-and-is-stamped-with-exactly-the-id-listened-for]
+//@   ensures err == nil ==> calls(SEND) == old(calls(SEND)) + 1 && ret(SEND, 0, old(calls(SEND))) == nil && replCh == ret(LISTEN, 0, old(calls(LISTEN))) && cancel != nil [success-returns-the-listeners-channel]
+//@   ensures err != nil ==> replCh == nil [failure-returns-no-channel]
+
+//@ func SendWithReply
+//@   requires ctx != nil && c != nil && backend != nil
+//@   ensures ncalls("SendWithReplies[Result]") <= old(ncalls("SendWithReplies[Result]")) + 1 [one-request]
+
+//@ func (PubSubBackend[Result]).ListenForNotifications
+//@   maypanic
+//@   requires ctx != nil && p.config.SubscriberConstructor != nil && p.config.GenerateSubscribeTopic != nil && p.marshaler != nil
+//@   callee CONS = p.config.SubscriberConstructor
+//@   callee GEN = p.config.GenerateSubscribeTopic
+//@   callee SUB = notificationsSubscriber.Subscribe
+//@   ensures result1 == nil ==> result0 != nil && spawned("(PubSubBackend[Result]).ListenForNotifications$1") == old(spawned("(PubSubBackend[Result]).ListenForNotifications$1")) + 1 && calls(SUB) == old(calls(SUB)) + 1 && ret(SUB, 1, old(calls(SUB))) == nil && arg(SUB, 1, old(calls(SUB))) == ret(GEN, 0, old(calls(GEN))) [subscribed-to-the-generated-reply-topic-before-returning-and-one-listener-started]
+//@   ensures result1 != nil ==> result0 == nil && spawned("(PubSubBackend[Result]).ListenForNotifications$1") == old(spawned("(PubSubBackend[Result]).ListenForNotifications$1")) [no-listener-without-a-subscription]
+
+// ---- command handler side (C18) ----
+
+//@ func NewCommandHandler$1
+//@   requires ctx != nil && handleFunc != nil && backend != nil
+//@   callee H = handleFunc
+//@   callee OCP = backend.OnCommandProcessed
+//@   ensures calls(H) == old(calls(H)) + 1 && arg(H, 0, old(calls(H))) == ctx && arg(H, 1, old(calls(H))) == cmd [the-users-handler-runs-once-on-the-command]
+//@   ensures calls(OCP) <= old(calls(OCP)) + 1 [at-most-one-reply]
+//@   ensures calls(OCP) == old(calls(OCP)) + 1 ==> result == ret(OCP, 0, old(calls(OCP))) && arg(OCP, 1, old(calls(OCP))).HandleErr == ret(H, 0, old(calls(H))) && arg(OCP, 1, old(calls(OCP))).CommandMessage != nil && arg(OCP, 1, old(calls(OCP))).Command == boxed(cmd) [the-backend-decides-the-settlement-knowing-the-handlers-error-and-the-original-message]
+//@   ensures calls(OCP) == old(calls(OCP)) ==> result != nil [no-reply-only-with-an-error-so-the-command-is-nacked]
+
+//@ func NewCommandHandlerWithResult$1
+//@   requires ctx != nil && handleFunc != nil && backend != nil
+//@   callee H = handleFunc
+//@   callee OCP = backend.OnCommandProcessed
+//@   ensures calls(H) == old(calls(H)) + 1 && arg(H, 0, old(calls(H))) == ctx && arg(H, 1, old(calls(H))) == cmd [the-users-handler-runs-once-on-the-command]
+//@   ensures calls(OCP) <= old(calls(OCP)) + 1 [at-most-one-reply]
+//@   ensures calls(OCP) == old(calls(OCP)) + 1 ==> result == ret(OCP, 0, old(calls(OCP))) && arg(OCP, 1, old(calls(OCP))).HandleErr == ret(H, 1, old(calls(H))) && arg(OCP, 1, old(calls(OCP))).HandlerResult == ret(H, 0, old(calls(H))) && arg(OCP, 1, old(calls(OCP))).CommandMessage != nil [the-backend-gets-the-handlers-result-and-error-and-the-original-message]
+//@   ensures calls(OCP) == old(calls(OCP)) ==> result != nil [no-reply-only-with-an-error-so-the-command-is-nacked]
